@@ -257,6 +257,9 @@ class Model:
     def sym_getattr(self, ctx, name):
         m = getattr(self, 'm_' + name, None)
         if m is not None:
+            used = getattr(ctx, 'used_model_ops', None)
+            if used is not None:
+                used.add(f'{getattr(self, "pytype", type(self).__name__)}.{name}')
             return BoundModelMethod(self, name, m)
         a = getattr(self, 'a_' + name, None)
         if a is not None:
